@@ -2,6 +2,7 @@ package config
 
 import (
 	"errors"
+	"math"
 	"sort"
 	"strings"
 
@@ -63,6 +64,11 @@ func (s *StorageInterface) Put(r record.Record) (record.Record, error) {
 		value, ok = acc.GetStringArray("Value")
 	case OptTypeInt:
 		value, ok = acc.GetInt("Value")
+		// GetInt truncates: leave a number with a fractional part to the validation,
+		// which refuses it, instead of storing a different value than was sent.
+		if f, isFloat := val.(float64); ok && isFloat && f != math.Trunc(f) {
+			value = f
+		}
 	case OptTypeBool:
 		value, ok = acc.GetBool("Value")
 	case optTypeAny:
